@@ -17,6 +17,10 @@
  *             every root-to-nil path holds the same number of black nodes
  * View      : set of reachable nodes + their keys (for trees with distinct keys: the finite map key -> node
  *             used by the abstract contract of C28).
+ * Junk      : the sentinel's parent / left / right fields (remove writes nil->parent) and every field of a node outside
+ *             the tree are symbolic in the pre-state; -DNIL_JUNK_CONCRETE is a concrete sub-case kept as its own job.
+ * Everything in the specification code is written branch-free on symbolic data ('&', '|', '?:'), because with
+ * --paths lifo every symbolic branch doubles the number of paths.
  */
 #include "verif.h"
 #include <stddef.h>
@@ -192,17 +196,18 @@ static int same_nodes_except(const struct view *a, const struct view *b, int add
     }
     return ok;
 }
-/* number of reachable nodes other than `ex` holding key k  (branch-free on keys) */
-static int count_key(const struct view *v, int k, int ex)
+/* does a reachable node other than `ex` hold key k? / a key >= k?   (branch-free on keys; plain disjunctions --
+ * counting with 32-bit adders made the SAT queries needlessly hard) */
+static int any_key(const struct view *v, int k, int ex)
 {
     int c = 0;
-    for (int i = 0; i < NP; i++) if (v->used[i] && i != ex) c = c + (v->key[i] == k);
+    for (int i = 0; i < NP; i++) if (v->used[i] && i != ex) c = c | (v->key[i] == k);
     return c;
 }
-static int count_ge(const struct view *v, int k)
+static int any_ge(const struct view *v, int k)
 {
     int c = 0;
-    for (int i = 0; i < NP; i++) if (v->used[i]) c = c + (v->key[i] >= k);
+    for (int i = 0; i < NP; i++) if (v->used[i]) c = c | (v->key[i] >= k);
     return c;
 }
 static int distinct_keys(const struct view *v)
@@ -326,8 +331,8 @@ void h_insert(void)
     ASSERT_WF(post, "insert");
     V_ASSERT(same_nodes_except(&pre, &post, z, BAD), "C36.insert.post.view_gains_exactly_the_node");
     V_ASSERT(same_keys_except(&pre, &post, z) & (post.key[z] == vin.q), "C36.insert.post.no_key_changed");
-    V_ASSERT(count_key(&post, vin.q, BAD) == count_key(&pre, vin.q, BAD) + 1, "C36.insert.post.multiset_plus_key");
-    {   int d0 = distinct_keys(&pre) & (count_key(&pre, vin.q, BAD) == 0), d1 = distinct_keys(&post);
+    /* (the multiset of keys grows by exactly this key: consequence of the two clauses above) */
+    {   int d0 = distinct_keys(&pre) & !any_key(&pre, vin.q, BAD), d1 = distinct_keys(&post);
         V_ASSERT(!d0 | d1, "C36.insert.post.map_stays_a_map_when_key_was_absent");
     }
     V_CANARY("insert");
@@ -352,7 +357,7 @@ void h_remove(void)
         for (int i = 0; i < NP; i++) if (post.used[i]) refs = refs | (post.L[i] == z) | (post.R[i] == z) | (post.P[i] == z);
         V_ASSERT(!refs, "C36.remove.post.node_detached");
     }
-    V_ASSERT(count_key(&post, pre.key[z], BAD) == count_key(&pre, pre.key[z], BAD) - 1, "C36.remove.post.multiset_minus_key");
+    /* (the multiset of keys loses exactly key(z): consequence of the first two clauses) */
     V_CANARY("remove");
 }
 
@@ -368,7 +373,7 @@ void h_find(void)
     int ri = idx(r);
     observe(&post);
     V_ASSERT(same_state(&pre, &post), "C36.find.post.tree_unchanged");
-    V_ASSERT(V_IFF(r == NULL, count_key(&pre, vin.q, BAD) == 0), "C36.find.post.null_iff_key_absent");
+    V_ASSERT(V_IFF(r == NULL, !any_key(&pre, vin.q, BAD)), "C36.find.post.null_iff_key_absent");
     V_ASSERT(r == NULL || (ri >= 0 && ri < NP && pre.used[ri] && pre.key[ri] == vin.q),
              "C36.find.post.result_is_a_stored_node_with_that_key");
     V_CANARY("find");
@@ -386,7 +391,7 @@ void h_find_or_larger(void)
     int ri = idx(r);
     observe(&post);
     V_ASSERT(same_state(&pre, &post), "C36.find_or_larger.post.tree_unchanged");
-    V_ASSERT(V_IFF(r == NULL, count_ge(&pre, vin.q) == 0), "C36.find_or_larger.post.null_iff_no_key_at_or_above");
+    V_ASSERT(V_IFF(r == NULL, !any_ge(&pre, vin.q)), "C36.find_or_larger.post.null_iff_no_key_at_or_above");
     V_ASSERT(r == NULL || (ri >= 0 && ri < NP && pre.used[ri] && pre.key[ri] >= vin.q),
              "C36.find_or_larger.post.result_is_a_stored_node_not_below_query");
     if (r != NULL && ri >= 0 && ri < NP) {
@@ -438,7 +443,7 @@ void h_update(void)
     ENUM(z, vin.z, NFIX);
     int rc = parsec_rbtree_update_node(&T, NODE(z), vin.q);
     observe(&post);
-    int other = count_key(&pre, vin.q, z) != 0;
+    int other = any_key(&pre, vin.q, z);
     V_ASSERT(rc == PARSEC_SUCCESS || rc == PARSEC_ERR_EXISTS, "C36.update_node.post.returns_success_or_exists");
     V_ASSERT(V_IFF(rc == PARSEC_ERR_EXISTS, other), "C36.update_node.post.exists_iff_another_node_has_new_key");
     int same = same_state(&pre, &post);
